@@ -57,6 +57,7 @@ PLAIN = [
     ("set_extrusion_mode", lambda g: g.set_extrusion_mode("relative")), ("set_feed_mode", lambda g: g.set_feed_mode("1/time")),
     ("tool_off", lambda g: g.tool_off()), ("coolant_on", lambda g: g.coolant_on("mist")), ("coolant_off", lambda g: g.coolant_off()),
     ("tool_change", lambda g: g.tool_change("manual", 7)), ("tool_change-big", lambda g: g.tool_change("automatic", 123)),
+    ("tool_change-5", lambda g: g.tool_change("manual", 31415)), ("tool_change-6", lambda g: g.tool_change("manual", 100000)),
     ("query", lambda g: g.query("position")), ("pause", lambda g: g.pause()), ("stop", lambda g: g.stop(True)), ("wait", lambda g: g.wait()),
     ("emergency_halt", lambda g: g.emergency_halt("jam")), ("auto_home", lambda g: g.auto_home()), ("set_axis-none", lambda g: g.set_axis()),
     ("move-none", lambda g: g.move(F=100)), ("arc", lambda g: (g.set_resolution(1.0), g.trace.arc((2, 2), (2, 0)))),
